@@ -107,7 +107,7 @@ theorem filter_insert_pending (l : List (α × Bool)) (k : Nat) (p : List α) :
 theorem originLoop_spec (ns : List (Node α)) (m : Nat)
     (hwf : ∀ nd ∈ ns, nd.buf.length + nd.pend.length = nd.malloc) (hm : m ≤ pendSum ns)
     (hne : 0 < m ∨ ns ≠ []) :
-    ∃ k mn nd, originLoop ns (m : Int) = some (k, (mn : Int)) ∧ ns[k]? = some nd ∧
+    ∃ (k mn : Nat) (nd : Node α), originLoop ns (m : Int) = some (k, (mn : Int)) ∧ ns[k]? = some nd ∧
       mn ≤ nd.pend.length ∧ m = pendSum (ns.take k) + mn := by
   induction ns generalizing m with
   | nil => simp at hm hne; omega
@@ -202,7 +202,7 @@ theorem R.mallocSize_eq {b : LB α} {q : Q α} (hR : R b q) {app : Bool}
 
 theorem writeDirect_locate {b : LB α} {q : Q α} (hR : R b q)
     (hsh : Shape b.nodes b.r b.f b.w false false) (rn : Nat) (hrn : rn ≤ q.mallocLen) :
-    ∃ k mn origin, originLoop (b.nodes.drop b.f) ((b.mallocSize : Int) - (rn : Int)) = some (k, (mn : Int)) ∧
+    ∃ (k mn : Nat) (origin : Node α), originLoop (b.nodes.drop b.f) ((b.mallocSize : Int) - (rn : Int)) = some (k, (mn : Int)) ∧
       b.nodes[b.f + k]? = some origin ∧ mn ≤ origin.pend.length ∧
       rn + mn = origin.pend.length + pendSum (b.nodes.drop (b.f + k + 1)) := by
   have hM := hR.mallocSize_eq hsh
@@ -296,5 +296,95 @@ theorem R.insert {b b' : LB α} {q : Q α} (hR : R b q) (hd : q.dead = false) (h
     simp only [Q.flushedBytes]
     rw [filter_insert_flushed]
     exact this
+
+theorem dataNode_abs (cfg : Cfg) (p : List α) (pcap : Nat) :
+    Node.abs ({ (newNode cfg 0 : Node α) with malloc := p.length, pend := p, cap := pcap } : Node α) =
+      p.map (·, false) := by
+  simp [Node.abs, Node.readable, newNode]
+
+theorem writeDirect_refines [DecidableEq α] (cfg : Cfg) {b : LB α} {q : Q α} (hR : R b q) (p : List α)
+    (pcap : Nat) (remain : Int) (hC : Contract q (.writeDirect p pcap remain) = true) :
+    ∃ b' r, b.writeDirect cfg p pcap remain = some (b', r) ∧
+      R b' (specStep q (.writeDirect p pcap remain)).1 ∧
+      Matches r (specStep q (.writeDirect p pcap remain)).2 := by
+  have hC' : q.dead = false ∧ q.readOnly = false ∧ q.booked = false ∧ q.binSinceFlush = false ∧
+      remain ≤ (q.mallocLen : Int) ∧ p.length ≤ pcap := by
+    simpa [Contract, and_assoc] using hC
+  obtain ⟨hd, hro, hbk, hbin, hrem, hpc⟩ := hC'
+  have happ : q.appSinceFlush = false := by
+    cases h : q.appSinceFlush with
+    | false => rfl
+    | true => have := hR.flags h; rw [hbin] at this; cases this
+  have hsh := hR.shape hd
+  rw [hro, happ] at hsh
+  unfold LB.writeDirect
+  simp only [specStep]
+  have hemp : (p.isEmpty = true) ↔ p.length = 0 := by
+    rw [List.isEmpty_iff, List.length_eq_zero_iff]
+  by_cases h0 : p.length = 0 ∨ remain < 0
+  · have h0' : p.isEmpty = true ∨ remain < 0 := by rw [hemp]; exact h0
+    simp only [h0, h0', if_true]
+    exact ⟨_, _, rfl, hR, rfl⟩
+  · have h0' : ¬ (p.isEmpty = true ∨ remain < 0) := by rw [hemp]; exact h0
+    simp only [h0, h0', if_false]
+    obtain ⟨rn, rfl⟩ := Int.eq_ofNat_of_zero_le (by omega : 0 ≤ remain)
+    obtain ⟨k, mn, origin, e, ho, hmn, hrn⟩ := writeDirect_locate hR hsh rn (by omega)
+    rw [e]
+    simp only [ho, Int.toNat_natCast]
+    have hno := hsh.node _ origin ho
+    obtain ⟨w1, w2, _⟩ := hno.2.2.2.1 rfl
+    have hneg : ¬ ((mn : Int) + (origin.buf.length : Int) < 0) := by omega
+    have hto : (((mn : Int) + (origin.buf.length : Int)).toNat : Nat) = (mn + origin.buf.length : Nat) := by omega
+    have hcap : ¬ ((mn + origin.buf.length : Nat) > origin.cap ∧ (rn : Int) > 0) := by omega
+    have hw : ¬ b.w ≥ b.nodes.length := by have := hsh.wr rfl; omega
+    simp only [hneg, hto, hcap, hw, if_false]
+    by_cases hpos : (rn : Int) > 0
+    · simp only [hpos, if_true]
+      refine ⟨_, _, rfl, ?_, rfl⟩
+      refine hR.insert hd hro happ p rn k mn origin ho hmn hrn
+        { origin with malloc := mn + origin.buf.length,
+                      pend := origin.pend.take (mn + origin.buf.length - origin.buf.length), unmanaged := true }
+        [{ (newNode cfg 0 : Node α) with malloc := p.length, pend := p, cap := pcap },
+         { buf := (origin.buf ++ origin.pend).take (mn + origin.buf.length), off := mn + origin.buf.length,
+           malloc := origin.malloc, pend := (origin.buf ++ origin.pend).drop (mn + origin.buf.length),
+           cap := origin.cap, unmanaged := origin.unmanaged }]
+        rfl rfl ?_ ?_ ?_ ?_ rfl rfl rfl rfl rfl rfl rfl
+      · simp only [List.length_take]; omega
+      · show mn + origin.buf.length ≤ origin.cap
+        omega
+      · intro x hx
+        simp only [List.mem_cons, List.not_mem_nil, or_false] at hx
+        rcases hx with rfl | rfl
+        · simp [newNode]; exact hpc
+        · simp only [List.length_take, List.length_drop, List.length_append]
+          omega
+      · simp only [absL_cons, absL_nil, List.append_nil, dataNode_abs]
+        have e1 : mn + origin.buf.length - origin.buf.length = mn := by omega
+        have e2 : (origin.buf ++ origin.pend).drop (mn + origin.buf.length) = origin.pend.drop mn := by
+          rw [Nat.add_comm, ← List.drop_drop, List.drop_left' rfl]
+        have e3 : (origin.buf ++ origin.pend).take (mn + origin.buf.length) =
+            origin.buf ++ origin.pend.take mn := by
+          rw [Nat.add_comm, List.take_append, List.take_of_length_le (by omega)]
+          congr 2; omega
+        simp only [Node.abs, Node.readable, e1, e2, e3]
+        have e4 : (origin.buf ++ origin.pend.take mn).drop (mn + origin.buf.length) = [] :=
+          List.drop_eq_nil_of_le (by simp only [List.length_append, List.length_take]; omega)
+        have e5 : (origin.pend.drop mn).take (origin.malloc - (origin.buf ++ origin.pend.take mn).length) =
+            origin.pend.drop mn :=
+          List.take_of_length_le (by simp only [List.length_append, List.length_take, List.length_drop]; omega)
+        rw [e4, e5, List.take_take, Nat.min_self]
+        simp only [List.map_nil, List.nil_append, List.append_assoc]
+    · simp only [hpos, if_false]
+      refine ⟨_, _, rfl, ?_, rfl⟩
+      refine hR.insert hd hro happ p rn k mn origin ho hmn hrn origin
+        [{ (newNode cfg 0 : Node α) with malloc := p.length, pend := p, cap := pcap }]
+        rfl rfl w1 w2 ?_ ?_ rfl rfl rfl rfl rfl rfl rfl
+      · intro x hx
+        simp only [List.mem_cons, List.not_mem_nil, or_false] at hx
+        subst hx
+        simp [newNode]; exact hpc
+      · have hmn' : mn = origin.pend.length := by omega
+        simp only [absL_cons, absL_nil, List.append_nil, dataNode_abs, Node.abs_wf origin w1, hmn',
+          List.take_length, List.drop_length, List.map_nil, List.append_nil]
 
 end Netpoll.Buf
